@@ -181,6 +181,40 @@ func genForced(ctx *common.Ctx) []implJob {
 			Procs: common.Pick(r, procChoices)}, Shape: "forced-select-timeout", Counts: []int{0, n}})
 	}
 
+	// ---- range with a second consumer on the same buffered channel and a close in between: n items wait in the
+	//      buffer; the ranging routine is held INSIDE its function on item p; meanwhile another routine takes the next t
+	//      items and closes the channel; then the ranging routine is let go.  It must have seen exactly the items
+	//      1..p and p+t+1..n, each once, and nothing else (no nil from the closed channel).  Every (n, p, t) with
+	//      n <= 4 is run: 10 jobs ----
+	for n := 2; n <= 4; n++ {
+		for p := 1; p < n; p++ {
+			for t := 1; t <= n-p; t++ {
+				// c0 items (cap n), c1 "I am inside on item p", c2 "go on"
+				var want []string
+				for v := 1; v <= n; v++ {
+					if v <= p || v > p+t {
+						want = append(want, fmt.Sprint(v))
+					}
+				}
+				ranger := fmt.Sprintf("(let ((seen nil)) (range (lambda (v) (setq seen (cons v seen)) (if (equal v %d) (progn (channel-push c1 1) (channel-pop c2)) nil)) c0) %s)",
+					p, okEntry(0, "(reverse seen)", "'("+strings.Join(want, " ")+")"))
+				var d strings.Builder
+				for v := 1; v <= n; v++ {
+					fmt.Fprintf(&d, "(channel-push c0 %d) ", v)
+				}
+				d.WriteString("(channel-push c3 1) (channel-pop c1) ")
+				for k := 0; k < t; k++ {
+					d.WriteString(okEntry(k, "(channel-pop c0)", fmt.Sprint(p+1+k)) + " ")
+				}
+				d.WriteString("(channel-close c0) (channel-push c2 1)")
+				// the ranging routine starts when all items are in the buffer
+				out = append(out, implJob{Job: job{Kind: "lisp", Caps: []int{n, 0, 0, 1},
+					Runs: []string{implRoutine("(channel-pop c3) "+ranger, 0), implRoutine(d.String(), 1)}, Procs: common.Pick(r, procChoices)},
+					Shape: "forced-range-steal", Counts: []int{1, t}})
+			}
+		}
+	}
+
 	// ---- select over a CLOSED channel: its clause runs with nil, whether select can use the Go select statement
 	//      (at most two timer clauses) or has to go through reflect.Select (three and more) ----
 	for _, nt := range []int{0, 2, 3, 4} {
